@@ -618,6 +618,12 @@ func syncIndexedDoc(
 		return err
 	}
 
+	if isNewDoc && isDeletedDoc {
+		// The document is visible neither before nor after the merge (for example an update that
+		// arrives for a document that has been deleted): there is nothing to index.
+		return nil
+	}
+
 	if isNewDoc {
 		return col.indexNewDoc(ctx, doc)
 	} else if isDeletedDoc {
